@@ -379,5 +379,6 @@ class Ctx:
         print(f"[{self.pid}] obligations {len(self.discharged)}/{len(self.obligations)} discharged; "
               f"{self.cov['evaluations']} evaluations; {len(new_fail)} new failures; "
               f"{len(seen_known)} known findings; {wall:.1f}s; exit {rc}", flush=True)
-        shutil.rmtree(self.work, ignore_errors=True)
+        if not os.environ.get("VERIF_KEEP_WORK"):
+            shutil.rmtree(self.work, ignore_errors=True)
         return rc
